@@ -2338,6 +2338,36 @@ func isDirTest(cond ssa.Value) bool {
 	return strings.HasSuffix(n, ").IsDir")
 }
 
+// ---- HE1: the hasher's error stops the run ---------------------------------------------------------------------------------------
+
+func ruleHE1(c *Ctx) *rule {
+	r := &rule{ID: "HE1", Engine: "E2", Floor: 1,
+		Statement: "every call of Hasher.Hash made by the module uses the returned error, and the error's non-nil edge reaches only non-nil error returns: no caller goes on with the digest of a failed hashing",
+		Necessity: "a file that cannot be opened or read yields an error and no digest; a caller that ignores or downgrades that error continues with an empty or partial digest, so spok neither stops with a message nor decides on the task's real inputs"}
+	n := 0
+	for _, f := range c.ModFuncs {
+		for _, site := range callSites(f) {
+			call, ok := site.(*ssa.Call)
+			if !ok || !c.isHashCall(call) {
+				continue
+			}
+			n++
+			key := fmt.Sprintf("%s Hash#%d error", fname(f), n)
+			ev := errOfCall(call)
+			if ev == nil {
+				r.bad(key, c.ipos(call), "the error of Hash is discarded")
+				continue
+			}
+			if ok, why := c.errEdgeDischarged(ev); !ok {
+				r.bad(key, c.ipos(call), "the error of Hash does not stop the run: "+why)
+				continue
+			}
+			r.ok(key, c.ipos(call), "the non-nil edge of the error reaches only non-nil error returns")
+		}
+	}
+	return r
+}
+
 func hashProperties() []*propertySpec {
 	trusted := []string{
 		"sync.WaitGroup, unbuffered channel and close semantics of the Go memory model",
@@ -2354,6 +2384,6 @@ func hashProperties() []*propertySpec {
 			Explanation: "Schedules and fault sequences are covered by shape conditions on the fixed producer/jobs/workers/results/collector topology recovered from the SSA form: CC1 (no dereference of a value whose paired error is non-nil or discarded), CC2 (every worker error is sent on all paths), CC3 (nil-error return guarded by the received errors), CC4 (Done deferred at entry, Add(1) before each go in the same iteration), CC5 (single close of jobs by the sole producer after the last send on every path; close of results after Wait), CC6 (receive loops leave only on channel-closed), CC7 (no shared writable memory), CC8 (>= 1 worker). CC4-CC8 together with HS3 are sufficient for deadlock-, leak- and race-freedom of this topology under any schedule: every worker terminates iff jobs is closed and drained; jobs is closed after finitely many sends, each of which is matched because >= 1 worker loops until closed; each worker's sends are matched because the collector drains until closed; results is closed exactly when all workers are done. A different topology makes the check undecided, not green.",
 			NotCovered:  []string{"panics inside the standard library", "liveness if the file system blocks a read forever"},
 			Assumptions: trusted,
-			Rules:       []func(*Ctx) *rule{ruleCC1, ruleCC2, ruleCC3, ruleCC4, ruleCC5, ruleCC6, ruleCC7, ruleHS4("CC8"), ruleCC9, ruleCC10}},
+			Rules:       []func(*Ctx) *rule{ruleCC1, ruleCC2, ruleCC3, ruleCC4, ruleCC5, ruleCC6, ruleCC7, ruleHS4("CC8"), ruleCC9, ruleCC10, ruleHE1}},
 	}
 }
